@@ -45,6 +45,12 @@ def plan(tier, seed):
             for at in (0.05, 0.2, 0.3):
                 for pr in (0, 2, 4):
                     scs.append(dict(cell=ci, pat=pn, subpose=4, place=P(0.97, 0.03, 0.97), pair=pr, replace_all=0, atol=at, build_atol=0.02, decoy='nearmiss', fraction=1.0, noise=0))
+    # axis-aligned copies with noise (stretched / compressed within the tolerance along the axes), also with a wide tolerance
+    for ci in (0, 1):
+        for pn in ['CN', 'CNO', 'OCO']:
+            for pi in (0, 1, 2, 3):
+                for at in (0.05, 0.2):
+                    scs.append(dict(cell=ci, pat=pn, subpose=pi, place=P(0.97, 0.03, 0.97), pair=2, replace_all=0, atol=at, build_atol=at * 1.6, fraction=1.0, noise=1))
     # patterns written far from the origin (relative tolerances, cancellation): every pair, incl. the one with an atom displaced by 0.04 A
     for ci in (0, 2, 6):
         for pn in ['CN', 'CNO', 'CHHB']:
